@@ -5,6 +5,7 @@ Require Import ITree.Model.Common ITree.Model.RBTree ITree.Model.Pool ITree.Mode
   ITree.Model.ListModel.
 Require Import ITree.Spec.MapSpec ITree.Proofs.MapProofs ITree.Proofs.MapTheorems
   ITree.Proofs.KeyListProofs ITree.Proofs.KeyProofs ITree.Proofs.KeyRefine ITree.Proofs.KeyTheorems.
+Require ITree.Model.SegModel ITree.Proofs.SegProofs ITree.Proofs.SegExtras.
 
 (* map / set tree: from any reachable state, after clear every valid history runs to completion with
    exactly the outputs it has on a new tree (whatever the capacity hints) *)
@@ -27,3 +28,10 @@ Proof. reflexivity. Qed.
 
 Theorem C12_keylist : forall (max_exp: Z) (s: klstate), kl_step max_exp s KClear = (kl_new max_exp, KONone).
 Proof. reflexivity. Qed.
+
+(* segment tree: after any valid history, clear yields literally the state of a new tree over the
+   same domain, so every later history (its clock may restart) behaves as on a new tree *)
+Theorem C12_seg : forall (lo hi: Z) (s0: SegModel.seg) (h: list SegModel.sop) (s: SegModel.seg) (outs: list (list SegModel.sval)),
+  SegModel.seg_new lo hi = Some s0 -> ITree.Proofs.SegProofs.seg_valid (SegModel.lay s0) h ->
+  SegModel.seg_run s0 h = Ret (s, outs) -> SegModel.seg_clear s = s0.
+Proof. exact ITree.Proofs.SegExtras.seg_clear_is_new. Qed.
